@@ -114,14 +114,14 @@ macro_rules! parse_padding_unit {
         }
     };
 }
-// @unit C03.parse_padding props=C03,C04,C02 kind=bounded bound=buffer<=16 fn=zvariant::de::DeserializerCommon::parse_padding timeout=600
+// @unit C03.parse_padding props=C03,C04,C02 kind=bounded bound=buffer<=16 fn=zvariant::de::DeserializerCommon::parse_padding timeout=1200
 #[cfg(not(verif_skip_c03_parse_padding__n16))]
 parse_padding_unit!(c03_parse_padding__n16, 16, "C03.parse_padding.ok_iff_zero_padding_present", "C03.parse_padding.value_and_advance", "C03.parse_padding.err_consumes_nothing");
 
 // ---- contract: DeserializerCommon::next_slice ------------------------------------------------------
 // requires pos <= len, n <= u32::MAX (all call sites pass a u8/u32 length or an alignment; usize is 64 bit)
 // ensures  Ok(s) <=> pos + n <= len ;  s = bytes[pos..pos+n] ;  pos' = pos + n ;  Err ==> pos' = pos
-// @unit C03.next_slice props=C03,C04,C02 kind=bounded bound=buffer<=16 fn=zvariant::de::DeserializerCommon::next_slice timeout=600
+// @unit C03.next_slice props=C03,C04,C02 kind=bounded bound=buffer<=16 fn=zvariant::de::DeserializerCommon::next_slice timeout=1200
 #[cfg(not(verif_skip_c03_next_slice__n16))]
 #[cfg(kani)]
 #[kani::proof]
@@ -224,38 +224,38 @@ impl<'de, 'p, T: serde::Deserialize<'de>> DeserializeSeed<'de> for PeekSeed<'p, 
     }
 }
 
-// @unit C03.de_u8 props=C03,C04 kind=bounded bound=buffer<=12 fn=<&mut.zvariant::dbus::Deserializer.as.serde::Deserializer>::deserialize_u8,zvariant::de::DeserializerCommon::next_const_size_slice stubs=C03.parse_padding timeout=600
+// @unit C03.de_u8 props=C03,C04 kind=bounded bound=buffer<=12 fn=<&mut.zvariant::dbus::Deserializer.as.serde::Deserializer>::deserialize_u8,zvariant::de::DeserializerCommon::next_const_size_slice stubs=C03.parse_padding timeout=1200
 #[cfg(not(verif_skip_c03_de_u8__n12))]
 fixed_unit!(c03_de_u8__n12, 12, u8, 1, |b, _| b[0], always, "C03.de_u8.ok_iff_valid_encoding", "C03.de_u8.value", "C03.de_u8.consumed");
-// @unit C03.de_bool props=C03,C04 kind=bounded bound=buffer<=12 fn=<&mut.zvariant::dbus::Deserializer.as.serde::Deserializer>::deserialize_bool stubs=C03.parse_padding timeout=600
+// @unit C03.de_bool props=C03,C04 kind=bounded bound=buffer<=12 fn=<&mut.zvariant::dbus::Deserializer.as.serde::Deserializer>::deserialize_bool stubs=C03.parse_padding timeout=1200
 #[cfg(not(verif_skip_c03_de_bool__n12))]
 fixed_unit!(c03_de_bool__n12, 12, bool, 4, |b, big| spec_u32(b, big) == 1, |b, big| spec_u32(b, big) <= 1, "C03.de_bool.ok_iff_valid_encoding_0_or_1", "C03.de_bool.value", "C03.de_bool.consumed");
-// @unit C03.de_i16 props=C03,C04 kind=bounded bound=buffer<=12 fn=<&mut.zvariant::dbus::Deserializer.as.serde::Deserializer>::deserialize_i16 stubs=C03.parse_padding timeout=600
+// @unit C03.de_i16 props=C03,C04 kind=bounded bound=buffer<=12 fn=<&mut.zvariant::dbus::Deserializer.as.serde::Deserializer>::deserialize_i16 stubs=C03.parse_padding timeout=1200
 #[cfg(not(verif_skip_c03_de_i16__n12))]
 fixed_unit!(c03_de_i16__n12, 12, i16, 2, |b, big| spec_u16(b, big) as i16, always, "C03.de_i16.ok_iff_valid_encoding", "C03.de_i16.value", "C03.de_i16.consumed");
-// @unit C03.de_u16 props=C03,C04 kind=bounded bound=buffer<=12 fn=<&mut.zvariant::dbus::Deserializer.as.serde::Deserializer>::deserialize_u16 stubs=C03.parse_padding timeout=600
+// @unit C03.de_u16 props=C03,C04 kind=bounded bound=buffer<=12 fn=<&mut.zvariant::dbus::Deserializer.as.serde::Deserializer>::deserialize_u16 stubs=C03.parse_padding timeout=1200
 #[cfg(not(verif_skip_c03_de_u16__n12))]
 fixed_unit!(c03_de_u16__n12, 12, u16, 2, |b, big| spec_u16(b, big), always, "C03.de_u16.ok_iff_valid_encoding", "C03.de_u16.value", "C03.de_u16.consumed");
-// @unit C03.de_i32 props=C03,C04 kind=bounded bound=buffer<=12 fn=<&mut.zvariant::dbus::Deserializer.as.serde::Deserializer>::deserialize_i32 stubs=C03.parse_padding timeout=600
+// @unit C03.de_i32 props=C03,C04 kind=bounded bound=buffer<=12 fn=<&mut.zvariant::dbus::Deserializer.as.serde::Deserializer>::deserialize_i32 stubs=C03.parse_padding timeout=1200
 #[cfg(not(verif_skip_c03_de_i32__n12))]
 fixed_unit!(c03_de_i32__n12, 12, i32, 4, |b, big| spec_u32(b, big) as i32, always, "C03.de_i32.ok_iff_valid_encoding", "C03.de_i32.value", "C03.de_i32.consumed");
-// @unit C03.de_u32 props=C03,C04 kind=bounded bound=buffer<=12 fn=<&mut.zvariant::dbus::Deserializer.as.serde::Deserializer>::deserialize_u32 stubs=C03.parse_padding timeout=600
+// @unit C03.de_u32 props=C03,C04 kind=bounded bound=buffer<=12 fn=<&mut.zvariant::dbus::Deserializer.as.serde::Deserializer>::deserialize_u32 stubs=C03.parse_padding timeout=1200
 #[cfg(not(verif_skip_c03_de_u32__n12))]
 fixed_unit!(c03_de_u32__n12, 12, u32, 4, |b, big| spec_u32(b, big), always, "C03.de_u32.ok_iff_valid_encoding", "C03.de_u32.value", "C03.de_u32.consumed");
-// @unit C03.de_i64 props=C03,C04 kind=bounded bound=buffer<=16 fn=<&mut.zvariant::dbus::Deserializer.as.serde::Deserializer>::deserialize_i64 stubs=C03.parse_padding timeout=600
+// @unit C03.de_i64 props=C03,C04 kind=bounded bound=buffer<=16 fn=<&mut.zvariant::dbus::Deserializer.as.serde::Deserializer>::deserialize_i64 stubs=C03.parse_padding timeout=1200
 #[cfg(not(verif_skip_c03_de_i64__n16))]
 fixed_unit!(c03_de_i64__n16, 16, i64, 8, |b, big| spec_u64(b, big) as i64, always, "C03.de_i64.ok_iff_valid_encoding", "C03.de_i64.value", "C03.de_i64.consumed");
-// @unit C03.de_u64 props=C03,C04 kind=bounded bound=buffer<=16 fn=<&mut.zvariant::dbus::Deserializer.as.serde::Deserializer>::deserialize_u64 stubs=C03.parse_padding timeout=600
+// @unit C03.de_u64 props=C03,C04 kind=bounded bound=buffer<=16 fn=<&mut.zvariant::dbus::Deserializer.as.serde::Deserializer>::deserialize_u64 stubs=C03.parse_padding timeout=1200
 #[cfg(not(verif_skip_c03_de_u64__n16))]
 fixed_unit!(c03_de_u64__n16, 16, u64, 8, |b, big| spec_u64(b, big), always, "C03.de_u64.ok_iff_valid_encoding", "C03.de_u64.value", "C03.de_u64.consumed");
-// @unit C03.de_f64 props=C03,C04 kind=bounded bound=buffer<=16 fn=<&mut.zvariant::dbus::Deserializer.as.serde::Deserializer>::deserialize_f64 stubs=C03.parse_padding timeout=600
+// @unit C03.de_f64 props=C03,C04 kind=bounded bound=buffer<=16 fn=<&mut.zvariant::dbus::Deserializer.as.serde::Deserializer>::deserialize_f64 stubs=C03.parse_padding timeout=1200
 #[cfg(not(verif_skip_c03_de_f64__n16))]
 fixed_unit!(c03_de_f64__n16, 16, f64, 8, |b, big| f64::from_bits(spec_u64(b, big)), always, "C03.de_f64.ok_iff_valid_encoding", "C03.de_f64.value", "C03.de_f64.consumed");
 
 // ---- contract: deserialize_i32 under signature `h` (UNIX_FD) -----------------------------------------
 // ensures Ok(fd) <=> padding zero ∧ 4 bytes present ∧ index < number of fds received with the message
 //         Ok(fd) ==> fd is the descriptor at that index ; pos' = pos + pad + 4
-// @unit C03.de_fd props=C03,C04,C02 kind=bounded bound=buffer<=12,fds<=3 fn=<&mut.zvariant::dbus::Deserializer.as.serde::Deserializer>::deserialize_i32,zvariant::de::DeserializerCommon::get_fd stubs=C03.parse_padding timeout=600
+// @unit C03.de_fd props=C03,C04,C02 kind=bounded bound=buffer<=12,fds<=3 fn=<&mut.zvariant::dbus::Deserializer.as.serde::Deserializer>::deserialize_i32,zvariant::de::DeserializerCommon::get_fd stubs=C03.parse_padding timeout=1200
 #[cfg(not(verif_skip_c03_de_fd__n12))]
 #[cfg(kani)]
 #[kani::proof]
@@ -343,22 +343,22 @@ macro_rules! str_unit {
         }
     };
 }
-// @unit C03.de_str.s props=C03,C04 kind=bounded bound=buffer<=8 fn=<&mut.zvariant::dbus::Deserializer.as.serde::Deserializer>::deserialize_str stubs=C03.parse_padding timeout=900
+// @unit C03.de_str.s props=C03,C04 kind=bounded bound=buffer<=8 fn=<&mut.zvariant::dbus::Deserializer.as.serde::Deserializer>::deserialize_str stubs=C03.parse_padding timeout=1800
 #[cfg(not(verif_skip_c03_de_str_s__n8))]
 str_unit!(c03_de_str_s__n8, 8, <&str as Type>::SIGNATURE, 4, 10,
     "C03.de_str.s.length_in_bounds", "C03.de_str.s.terminator_present", "C03.de_str.s.terminator_is_nul",
     "C03.de_str.s.no_interior_nul", "C03.de_str.s.rejects_0xff", "C03.de_str.s.value", "C03.de_str.s.consumed");
-// @unit C03.de_str.o props=C03,C04 kind=bounded bound=buffer<=8 tier=thorough fn=<&mut.zvariant::dbus::Deserializer.as.serde::Deserializer>::deserialize_str stubs=C03.parse_padding timeout=900
+// @unit C03.de_str.o props=C03,C04 kind=bounded bound=buffer<=8 tier=thorough fn=<&mut.zvariant::dbus::Deserializer.as.serde::Deserializer>::deserialize_str stubs=C03.parse_padding timeout=1800
 #[cfg(not(verif_skip_c03_de_str_o__n8))]
 str_unit!(c03_de_str_o__n8, 8, &Signature::ObjectPath, 4, 10,
     "C03.de_str.o.length_in_bounds", "C03.de_str.o.terminator_present", "C03.de_str.o.terminator_is_nul",
     "C03.de_str.o.no_interior_nul", "C03.de_str.o.rejects_0xff", "C03.de_str.o.value", "C03.de_str.o.consumed");
-// @unit C03.de_str.g props=C03,C04 kind=bounded bound=buffer<=5 fn=<&mut.zvariant::dbus::Deserializer.as.serde::Deserializer>::deserialize_str stubs=C03.parse_padding timeout=900
+// @unit C03.de_str.g props=C03,C04 kind=bounded bound=buffer<=5 fn=<&mut.zvariant::dbus::Deserializer.as.serde::Deserializer>::deserialize_str stubs=C03.parse_padding timeout=1800
 #[cfg(not(verif_skip_c03_de_str_g__n5))]
 str_unit!(c03_de_str_g__n5, 5, &Signature::Signature, 1, 7,
     "C03.de_str.g.length_in_bounds", "C03.de_str.g.terminator_present", "C03.de_str.g.terminator_is_nul",
     "C03.de_str.g.no_interior_nul", "C03.de_str.g.rejects_0xff", "C03.de_str.g.value", "C03.de_str.g.consumed");
-// @unit C03.de_str.v props=C03,C04 kind=bounded bound=buffer<=5 tier=thorough fn=<&mut.zvariant::dbus::Deserializer.as.serde::Deserializer>::deserialize_str stubs=C03.parse_padding timeout=900
+// @unit C03.de_str.v props=C03,C04 kind=bounded bound=buffer<=5 tier=thorough fn=<&mut.zvariant::dbus::Deserializer.as.serde::Deserializer>::deserialize_str stubs=C03.parse_padding timeout=1800
 #[cfg(not(verif_skip_c03_de_str_v__n5))]
 str_unit!(c03_de_str_v__n5, 5, &Signature::Variant, 1, 7,
     "C03.de_str.v.length_in_bounds", "C03.de_str.v.terminator_present", "C03.de_str.v.terminator_is_nul",
@@ -412,10 +412,10 @@ macro_rules! str_accept_unit {
         }
     };
 }
-// @unit C03.de_str_accept.s props=C03,C02 kind=bounded bound=ASCII,L<=3 fn=<&mut.zvariant::dbus::Deserializer.as.serde::Deserializer>::deserialize_str stubs=C03.parse_padding timeout=900
+// @unit C03.de_str_accept.s props=C03,C02 kind=bounded bound=ASCII,L<=3 fn=<&mut.zvariant::dbus::Deserializer.as.serde::Deserializer>::deserialize_str stubs=C03.parse_padding timeout=1800
 #[cfg(not(verif_skip_c03_de_str_accept_s__l3))]
 str_accept_unit!(c03_de_str_accept_s__l3, 3, <&str as Type>::SIGNATURE, 4, 6, "C03.de_str_accept.s.accepted", "C03.de_str_accept.s.value", "C03.de_str_accept.s.consumed");
-// @unit C03.de_str_accept.g props=C03,C02 kind=bounded bound=ASCII,L<=3 fn=<&mut.zvariant::dbus::Deserializer.as.serde::Deserializer>::deserialize_str stubs=C03.parse_padding timeout=900
+// @unit C03.de_str_accept.g props=C03,C02 kind=bounded bound=ASCII,L<=3 fn=<&mut.zvariant::dbus::Deserializer.as.serde::Deserializer>::deserialize_str stubs=C03.parse_padding timeout=1800
 #[cfg(not(verif_skip_c03_de_str_accept_g__l3))]
 str_accept_unit!(c03_de_str_accept_g__l3, 3, &Signature::Signature, 1, 6, "C03.de_str_accept.g.accepted", "C03.de_str_accept.g.value", "C03.de_str_accept.g.consumed");
 
@@ -497,13 +497,13 @@ macro_rules! array_new_unit {
         }
     };
 }
-// @unit C03.array_new.at props=C02,C03,C04,C07 kind=bounded bound=buffer<=16,elem=t fn=zvariant::dbus::de::ArrayDeserializer::new stubs=C03.parse_padding,C07.inc_array timeout=900
+// @unit C03.array_new.at props=C02,C03,C04,C07 kind=bounded bound=buffer<=16,elem=t fn=zvariant::dbus::de::ArrayDeserializer::new stubs=C03.parse_padding,C07.inc_array timeout=1800
 #[cfg(not(verif_skip_c03_array_new_at__n16))]
 array_new_unit!(c03_array_new_at__n16, 16, &SIG_AT, &SIG_T, 8, "C03.array_new.at.ok_iff_valid_header", "C03.array_new.at.len", "C03.array_new.at.start_and_alignment", "C03.array_new.at.signature_switch", "C03.array_new.at.depth_incremented");
-// @unit C03.array_new.au props=C02,C03,C04,C07 kind=bounded bound=buffer<=12,elem=u fn=zvariant::dbus::de::ArrayDeserializer::new stubs=C03.parse_padding,C07.inc_array timeout=900
+// @unit C03.array_new.au props=C02,C03,C04,C07 kind=bounded bound=buffer<=12,elem=u fn=zvariant::dbus::de::ArrayDeserializer::new stubs=C03.parse_padding,C07.inc_array timeout=1800
 #[cfg(not(verif_skip_c03_array_new_au__n12))]
 array_new_unit!(c03_array_new_au__n12, 12, &SIG_AU, &SIG_U, 4, "C03.array_new.au.ok_iff_valid_header", "C03.array_new.au.len", "C03.array_new.au.start_and_alignment", "C03.array_new.au.signature_switch", "C03.array_new.au.depth_incremented");
-// @unit C03.array_new.dict props=C02,C03,C04,C07 kind=bounded bound=buffer<=16,entry={ih} fn=zvariant::dbus::de::ArrayDeserializer::new stubs=C03.parse_padding,C07.inc_array timeout=900
+// @unit C03.array_new.dict props=C02,C03,C04,C07 kind=bounded bound=buffer<=16,entry={ih} fn=zvariant::dbus::de::ArrayDeserializer::new stubs=C03.parse_padding,C07.inc_array timeout=1800
 #[cfg(not(verif_skip_c03_array_new_dict__n16))]
 array_new_unit!(c03_array_new_dict__n16, 16, &SIG_DICT_IH, &SIG_I, 8, "C03.array_new.dict.ok_iff_valid_header", "C03.array_new.dict.len", "C03.array_new.dict.start_and_alignment", "C03.array_new.dict.signature_switch", "C03.array_new.dict.depth_incremented");
 
@@ -569,11 +569,11 @@ macro_rules! array_next_unit {
         }
     };
 }
-// @unit C03.array_next.at props=C02,C03,C04,C07 kind=bounded bound=buffer<=16,elem=t fn=zvariant::dbus::de::ArrayDeserializer::next_element,zvariant::dbus::de::ArrayDeserializer::next,zvariant::dbus::de::ArrayDeserializer::done,zvariant::dbus::de::ArrayDeserializer::end stubs=C03.parse_padding timeout=900
+// @unit C03.array_next.at props=C02,C03,C04,C07 kind=bounded bound=buffer<=16,elem=t fn=zvariant::dbus::de::ArrayDeserializer::next_element,zvariant::dbus::de::ArrayDeserializer::next,zvariant::dbus::de::ArrayDeserializer::done,zvariant::dbus::de::ArrayDeserializer::end stubs=C03.parse_padding timeout=1800
 #[cfg(not(verif_skip_c03_array_next_at__n16))]
 array_next_unit!(c03_array_next_at__n16, 16, &SIG_AT, &SIG_T, u64, 8, |b, big| spec_u64(b, big),
     "C03.array_next.at.none_iff_at_end", "C03.array_next.at.end_restores_depth_and_signature", "C03.array_next.at.some_iff_valid_element_within_array", "C03.array_next.at.value_and_advance", "C03.array_next.at.never_past_array_end");
-// @unit C03.array_next.au props=C02,C03,C04,C07 kind=bounded bound=buffer<=12,elem=u fn=zvariant::dbus::de::ArrayDeserializer::next_element,zvariant::dbus::de::ArrayDeserializer::next stubs=C03.parse_padding timeout=900
+// @unit C03.array_next.au props=C02,C03,C04,C07 kind=bounded bound=buffer<=12,elem=u fn=zvariant::dbus::de::ArrayDeserializer::next_element,zvariant::dbus::de::ArrayDeserializer::next stubs=C03.parse_padding timeout=1800
 #[cfg(not(verif_skip_c03_array_next_au__n12))]
 array_next_unit!(c03_array_next_au__n12, 12, &SIG_AU, &SIG_U, u32, 4, |b, big| spec_u32(b, big),
     "C03.array_next.au.none_iff_at_end", "C03.array_next.au.end_restores_depth_and_signature", "C03.array_next.au.some_iff_valid_element_within_array", "C03.array_next.au.value_and_advance", "C03.array_next.au.never_past_array_end");
@@ -584,7 +584,7 @@ array_next_unit!(c03_array_next_au__n12, 12, &SIG_AU, &SIG_U, u32, 4, |b, big| s
 // ensures new: key/value signatures taken from the dict signature, array header parsed with entry alignment 8
 //         next_value_seed: value decoded UNDER THE VALUE SIGNATURE ; afterwards signature = key signature
 //                          (also on error) ; a value that ends past the array end is rejected
-// @unit C03.map_value props=C02,C03,C04 kind=bounded bound=buffer<=12,dict=a{ih} fn=<zvariant::dbus::de::ArrayMapDeserializer.as.serde::de::MapAccess>::next_value_seed,zvariant::dbus::de::ArrayDeserializer::next stubs=C03.parse_padding timeout=900
+// @unit C03.map_value props=C02,C03,C04 kind=bounded bound=buffer<=12,dict=a{ih} fn=<zvariant::dbus::de::ArrayMapDeserializer.as.serde::de::MapAccess>::next_value_seed,zvariant::dbus::de::ArrayDeserializer::next stubs=C03.parse_padding timeout=1800
 #[cfg(not(verif_skip_c03_map_value__n12))]
 #[cfg(kani)]
 #[kani::proof]
@@ -627,7 +627,7 @@ fn c03_map_value__n12() {
     core::mem::forget(r);
 }
 
-// @unit C03.map_new props=C02,C03,C04,C07 kind=bounded bound=buffer<=16,dict=a{ih} fn=zvariant::dbus::de::ArrayMapDeserializer::new stubs=C03.parse_padding,C03.array_new.dict timeout=900
+// @unit C03.map_new props=C02,C03,C04,C07 kind=bounded bound=buffer<=16,dict=a{ih} fn=zvariant::dbus::de::ArrayMapDeserializer::new stubs=C03.parse_padding,C03.array_new.dict timeout=1800
 #[cfg(not(verif_skip_c03_map_new__n16))]
 #[cfg(kani)]
 #[kani::proof]
@@ -658,7 +658,7 @@ fn c03_map_new__n16() {
 //              num_fields = number of fields of the signature ; depth.structure + 1
 //         next_element_seed(k): field k decoded under FIELD k's signature at its own alignment ; pos advanced ;
 //              after the last field depth.structure - 1 ; Ok(None) once all fields are consumed
-// @unit C03.struct_new props=C02,C03,C04,C07 kind=bounded bound=buffer<=12,struct=(ih) fn=zvariant::dbus::de::StructureDeserializer::new stubs=C03.parse_padding,C07.inc_structure timeout=900
+// @unit C03.struct_new props=C02,C03,C04,C07 kind=bounded bound=buffer<=12,struct=(ih) fn=zvariant::dbus::de::StructureDeserializer::new stubs=C03.parse_padding,C07.inc_structure timeout=1800
 #[cfg(not(verif_skip_c03_struct_new__n12))]
 #[cfg(kani)]
 #[kani::proof]
@@ -692,7 +692,7 @@ fn c03_struct_new__n12() {
     core::mem::forget(r);
 }
 
-// @unit C03.struct_field props=C02,C03,C04,C07 kind=bounded bound=buffer<=12,struct=(ih) fn=<zvariant::dbus::de::StructureDeserializer.as.serde::de::SeqAccess>::next_element_seed stubs=C03.parse_padding timeout=900
+// @unit C03.struct_field props=C02,C03,C04,C07 kind=bounded bound=buffer<=12,struct=(ih) fn=<zvariant::dbus::de::StructureDeserializer.as.serde::de::SeqAccess>::next_element_seed stubs=C03.parse_padding timeout=1800
 #[cfg(not(verif_skip_c03_struct_field__n12))]
 #[cfg(kani)]
 #[kani::proof]
@@ -853,7 +853,7 @@ macro_rules! value_payload_unit {
         }
     };
 }
-// @unit C03.value_payload.t props=C02,C03,C04,C07 kind=bounded bound=buffer<=16,payload=t fn=<zvariant::dbus::de::ValueDeserializer.as.serde::de::SeqAccess>::next_element_seed stubs=C03.parse_padding,C03.de_u64 timeout=900
+// @unit C03.value_payload.t props=C02,C03,C04,C07 kind=bounded bound=buffer<=16,payload=t fn=<zvariant::dbus::de::ValueDeserializer.as.serde::de::SeqAccess>::next_element_seed stubs=C03.parse_padding,C03.de_u64 timeout=1800
 #[cfg(not(verif_skip_c03_value_payload_t__n16))]
 value_payload_unit!(c03_value_payload_t__n16, stub_sig_from_bytes_t, b't', 8, "C03.value_payload.t.ok_iff_valid_payload", "C03.value_payload.t.value_at_absolute_alignment", "C03.value_payload.t.consumed", "C03.value_payload.t.outer_depth_unchanged");
 
@@ -912,16 +912,16 @@ macro_rules! value_sig_unit {
         }
     };
 }
-// @unit C03.value_sig.two_types props=C03 kind=instance bound=variant-signature="ii",symbolic-payload fn=<zvariant::dbus::de::ValueDeserializer.as.serde::de::SeqAccess>::next_element_seed timeout=300
+// @unit C03.value_sig.two_types props=C03 kind=instance bound=variant-signature="ii",symbolic-payload fn=<zvariant::dbus::de::ValueDeserializer.as.serde::de::SeqAccess>::next_element_seed timeout=600
 #[cfg(not(verif_skip_c03_value_sig_two_types__instance))]
 value_sig_unit!(c03_value_sig_two_types__instance, stub_sig_from_bytes_ii, 2, [2, b'i', b'i', 0], "C03.value_sig.two_complete_types_rejected");
-// @unit C03.value_sig.empty props=C03 kind=instance bound=variant-signature="",symbolic-payload fn=<zvariant::dbus::de::ValueDeserializer.as.serde::de::SeqAccess>::next_element_seed timeout=300
+// @unit C03.value_sig.empty props=C03 kind=instance bound=variant-signature="",symbolic-payload fn=<zvariant::dbus::de::ValueDeserializer.as.serde::de::SeqAccess>::next_element_seed timeout=600
 #[cfg(not(verif_skip_c03_value_sig_empty__instance))]
 value_sig_unit!(c03_value_sig_empty__instance, stub_sig_from_bytes_empty, 2, [0, 0, 0, 0], "C03.value_sig.empty_signature_rejected");
 // (a single complete type is accepted: unit C03.value_payload.t, obligation ok_iff_valid_payload)
 
 // Stage Signature and stage Done of the same state machine.
-// @unit C03.value_stages props=C02,C03,C04 kind=bounded bound=buffer<=6 fn=<zvariant::dbus::de::ValueDeserializer.as.serde::de::SeqAccess>::next_element_seed,zvariant::dbus::de::ValueDeserializer::new stubs=C03.parse_padding timeout=900
+// @unit C03.value_stages props=C02,C03,C04 kind=bounded bound=buffer<=6 fn=<zvariant::dbus::de::ValueDeserializer.as.serde::de::SeqAccess>::next_element_seed,zvariant::dbus::de::ValueDeserializer::new stubs=C03.parse_padding timeout=1800
 #[cfg(not(verif_skip_c03_value_stages__n6))]
 #[cfg(kani)]
 #[kani::proof]
@@ -1012,31 +1012,31 @@ macro_rules! any_unit {
         }
     };
 }
-// @unit C03.any.y props=C03,C04 kind=bounded bound=buffer<=16 tier=thorough fn=zvariant::de::deserialize_any,<&mut.zvariant::dbus::Deserializer.as.serde::Deserializer>::deserialize_any stubs=C03.parse_padding timeout=600
+// @unit C03.any.y props=C03,C04 kind=bounded bound=buffer<=16 tier=thorough fn=zvariant::de::deserialize_any,<&mut.zvariant::dbus::Deserializer.as.serde::Deserializer>::deserialize_any stubs=C03.parse_padding timeout=1200
 #[cfg(not(verif_skip_c03_any_y__n16))]
 any_unit!(c03_any_y__n16, u8, b'y', 1, "C03.any.y.ok_iff_valid", "C03.any.y.visitor_gets_u8", "C03.any.y.value", "C03.any.y.consumed");
-// @unit C03.any.b props=C03,C04 kind=bounded bound=buffer<=16 fn=zvariant::de::deserialize_any stubs=C03.parse_padding timeout=600
+// @unit C03.any.b props=C03,C04 kind=bounded bound=buffer<=16 fn=zvariant::de::deserialize_any stubs=C03.parse_padding timeout=1200
 #[cfg(not(verif_skip_c03_any_b__n16))]
 any_unit!(c03_any_b__n16, bool, b'b', 4, "C03.any.b.ok_iff_valid", "C03.any.b.visitor_gets_bool", "C03.any.b.value", "C03.any.b.consumed");
-// @unit C03.any.n props=C03,C04 kind=bounded bound=buffer<=16 fn=zvariant::de::deserialize_any stubs=C03.parse_padding timeout=600
+// @unit C03.any.n props=C03,C04 kind=bounded bound=buffer<=16 fn=zvariant::de::deserialize_any stubs=C03.parse_padding timeout=1200
 #[cfg(not(verif_skip_c03_any_n__n16))]
 any_unit!(c03_any_n__n16, i16, b'n', 2, "C03.any.n.ok_iff_valid", "C03.any.n.visitor_gets_i16", "C03.any.n.value", "C03.any.n.consumed");
-// @unit C03.any.q props=C03,C04 kind=bounded bound=buffer<=16 tier=thorough fn=zvariant::de::deserialize_any stubs=C03.parse_padding timeout=600
+// @unit C03.any.q props=C03,C04 kind=bounded bound=buffer<=16 tier=thorough fn=zvariant::de::deserialize_any stubs=C03.parse_padding timeout=1200
 #[cfg(not(verif_skip_c03_any_q__n16))]
 any_unit!(c03_any_q__n16, u16, b'q', 2, "C03.any.q.ok_iff_valid", "C03.any.q.visitor_gets_u16", "C03.any.q.value", "C03.any.q.consumed");
-// @unit C03.any.i props=C03,C04 kind=bounded bound=buffer<=16 fn=zvariant::de::deserialize_any stubs=C03.parse_padding timeout=600
+// @unit C03.any.i props=C03,C04 kind=bounded bound=buffer<=16 fn=zvariant::de::deserialize_any stubs=C03.parse_padding timeout=1200
 #[cfg(not(verif_skip_c03_any_i__n16))]
 any_unit!(c03_any_i__n16, i32, b'i', 4, "C03.any.i.ok_iff_valid", "C03.any.i.visitor_gets_i32", "C03.any.i.value", "C03.any.i.consumed");
-// @unit C03.any.u props=C03,C04 kind=bounded bound=buffer<=16 tier=thorough fn=zvariant::de::deserialize_any stubs=C03.parse_padding timeout=600
+// @unit C03.any.u props=C03,C04 kind=bounded bound=buffer<=16 tier=thorough fn=zvariant::de::deserialize_any stubs=C03.parse_padding timeout=1200
 #[cfg(not(verif_skip_c03_any_u__n16))]
 any_unit!(c03_any_u__n16, u32, b'u', 4, "C03.any.u.ok_iff_valid", "C03.any.u.visitor_gets_u32", "C03.any.u.value", "C03.any.u.consumed");
-// @unit C03.any.x props=C03,C04 kind=bounded bound=buffer<=16 tier=thorough fn=zvariant::de::deserialize_any stubs=C03.parse_padding timeout=600
+// @unit C03.any.x props=C03,C04 kind=bounded bound=buffer<=16 tier=thorough fn=zvariant::de::deserialize_any stubs=C03.parse_padding timeout=1200
 #[cfg(not(verif_skip_c03_any_x__n16))]
 any_unit!(c03_any_x__n16, i64, b'x', 8, "C03.any.x.ok_iff_valid", "C03.any.x.visitor_gets_i64", "C03.any.x.value", "C03.any.x.consumed");
-// @unit C03.any.t props=C03,C04 kind=bounded bound=buffer<=16 fn=zvariant::de::deserialize_any stubs=C03.parse_padding timeout=600
+// @unit C03.any.t props=C03,C04 kind=bounded bound=buffer<=16 fn=zvariant::de::deserialize_any stubs=C03.parse_padding timeout=1200
 #[cfg(not(verif_skip_c03_any_t__n16))]
 any_unit!(c03_any_t__n16, u64, b't', 8, "C03.any.t.ok_iff_valid", "C03.any.t.visitor_gets_u64", "C03.any.t.value", "C03.any.t.consumed");
-// @unit C03.any.d props=C03,C04 kind=bounded bound=buffer<=16 tier=thorough fn=zvariant::de::deserialize_any stubs=C03.parse_padding timeout=600
+// @unit C03.any.d props=C03,C04 kind=bounded bound=buffer<=16 tier=thorough fn=zvariant::de::deserialize_any stubs=C03.parse_padding timeout=1200
 #[cfg(not(verif_skip_c03_any_d__n16))]
 any_unit!(c03_any_d__n16, f64, b'd', 8, "C03.any.d.ok_iff_valid", "C03.any.d.visitor_gets_f64", "C03.any.d.value", "C03.any.d.consumed");
 
